@@ -112,7 +112,12 @@ def build_bundle(design: dict, bname: str, built: Built) -> h.Bundle:
         return b
     b = h.Bundle(name=built.name(bname))
     roles = {}
-    if bd.get("roles"):
+    if bd.get("roles") and bd.get("roles_via") == "unnamed-procedural":
+        # procedural definition whose roles come from `h.Roles(n)` and stay unnamed, handed over as a ready-made RoleSet
+        rl = h.Roles(len(bd["roles"]))
+        roles = dict(zip(bd["roles"], rl))
+        b.roles = h.RoleSet.from_dict(dict(roles))
+    elif bd.get("roles"):
         b.roles = h.RoleSet.from_names(list(bd["roles"]))
         roles = {r: b.roles[r] for r in bd["roles"]}
     built.roles[bname] = roles
